@@ -131,3 +131,17 @@ PROPS["C17"] = dict(
              record_args={"quick": ["-n", 40, "-calls", 30], "thorough": ["-n", 1600, "-calls", 60]}),
     ],
 )
+
+PROPS["C15"] = dict(
+    family="fit", specdir="fit",
+    technique="TLA+ definition of weighted least squares through the exact normal equations (BigInt Cramer solution, normal equations re-verified by TLC) and of LOESS (nearest-window, tricube weights, local polynomial) enumerated by TLC over integer designs and replayed into fit.LinearLeastSquares / PolynomialRegression / LOESS",
+    level_text="TLC enumerates integer designs (6 abscissa sets of 3..7 points, thorough 11 sets up to 10 points) x bases (monomials to degree 3, thorough 6; |x|, step, mod, no-constant) x generating polynomials x perturbations x weight patterns and, for LOESS, degree 0..2 x span {1/3,1/2,3/4,1} x every half-integer query between the ends; it computes A = X'WX, b = X'Wy and the exact solution by Cramer's rule in BigInt, checks A beta = b, that polynomial data reproduces itself and that edge points of a LOESS window have weight zero; the binder drives the real routines with table-driven term callbacks, compares coefficients, normal equations, F, the LOESS value on sorted and shuffled input, and snapshots the inputs",
+    level_note="Trusted: TLC, binder comparison code, gonum mat.Cond for the tolerance max(1e-9, 16 eps cond(A)); rank-deficient designs and LOESS windows with too few positive-weight points are outside the statement and not emitted; smooth non-polynomial bases are represented by integer-valued tables (the routine only sees the numbers the callbacks write).",
+    stages=[
+        dict(name="gen", kind="gen", module="Fit.tla", cfg="Fit_gen.cfg",
+             consts=dict(XSets={"quick": "XSetsQuick", "thorough": "XSetsThorough"},
+                         Bases={"quick": '{"poly0","poly1","poly2","poly3","abs","nocst","step","mod"}',
+                                "thorough": '{"poly0","poly1","poly2","poly3","poly4","poly5","poly6","abs","nocst","step","mod"}'},
+                         Coefs={"quick": "CoefsQuick", "thorough": "CoefsThorough"}), timeout={"quick": 600, "thorough": 3000}),
+    ],
+)
